@@ -54,7 +54,7 @@ static void add(std::vector<Target> &V, const std::string &name, const std::stri
 	// a key whose self-signature verifies is checked through all 272 NIZK rounds, each hashing the growing transcript
 	// (about 1 s of CPU for a full check): a thinned catalogue
 	if (name == "pubkey.import-check-resigned")
-		t.stride = thorough ? 4 : 16;
+		t.stride = thorough ? 8 : 64;
 	V.push_back(t);
 }
 
@@ -413,23 +413,33 @@ static void fam_key(std::vector<Target> &V)
 	add(V, "pubkey.import-check", "plain704", pub0s, cat(sp, 300, 2048), run_pub);
 	add(V, "seckey.import-check", "nizk704", secs, C, run_sec);
 	add(V, "seckey.import-check", "plain704", sec0s, cat(sp, 300, 2048), run_sec);
-	// the self-signature is repaired after the mutation, so the NIZK parser is reached with mutated proofs / fields
-	add(V, "pubkey.import-check-resigned", "nizk704", pubs, C, [sec](const std::string &in) {
-		TMCG_PublicKey k;
-		if (!k.import(repair_pub(sec, in))) return 0;
-		return use_public(k);
-	});
 	{
 		// a consistent key with negated modulus: m' = -m (self-signature valid because squaring is done mod |m|)
 		std::string negm = "-" + b62(sec.m);
 		std::string prefix = sec.name + "|" + sec.email + "|" + sec.type + "|" + negm + "|" + b62(sec.y) + "|" + sec.nizk + "|";
 		std::string seed = "pub|" + prefix + resign_key(sec, prefix);
+		// the fields up to the first STAGE1 proofs with the whole catalogue (cheap: the check stops in STAGE1) ...
+		Catalogue Cf = C;
+		Cf.field_limit = 14;
+		add(V, "pubkey.import-check-resigned-head", "nizk704-negm", seed, Cf, [sec](const std::string &in) {
+			TMCG_PublicKey k;
+			if (!k.import(repair_pub(sec, in))) return 0;
+			return use_public(k);
+		}, false);
+		V.back().keyname = "pubkey.import-check-resigned";
+		// ... and every field, thinned
 		add(V, "pubkey.import-check-resigned", "nizk704-negm", seed, C, [sec](const std::string &in) {
 			TMCG_PublicKey k;
 			if (!k.import(repair_pub(sec, in))) return 0;
 			return use_public(k);
 		}, false);
 	}
+	// the self-signature is repaired after the mutation, so the NIZK parser is reached with mutated proofs / fields
+	add(V, "pubkey.import-check-resigned", "nizk704", pubs, C, [sec](const std::string &in) {
+		TMCG_PublicKey k;
+		if (!k.import(repair_pub(sec, in))) return 0;
+		return use_public(k);
+	});
 	{
 		Catalogue Cs = cat(sp, 0, 0);
 		Cs.thorough = false;
